@@ -45,6 +45,18 @@ I2 ==
     /\ tgt = Cfg({}, IF hasb THEN [filter |-> [INPUT |-> Chain("DROP", b)], mangle |-> [PREROUTING |-> Chain("ACCEPT", mb)]]
                      ELSE [filter |-> [INPUT |-> Chain("DROP", b)]])
 
+(* I3: spellings.  One or two rules per side from a wider pool in which neighbouring rules differ in *)
+(* one feature only (port, prefix length, negation, mask of a mark, state list, protocol number)      *)
+PoolX == Pool \cup {Rule("tcp8080", "ACCEPT"), Rule("tcp80net", "ACCEPT"), Rule("tcp80h0", "ACCEPT"), Rule("sport", "ACCEPT"),
+                    Rule("lowports", "ACCEPT"), Rule("udp1024x", "ACCEPT"), Rule("vrrp", "ACCEPT"), Rule("proto113", "ACCEPT"),
+                    Rule("icmp8", "ACCEPT"), Rule("icmp0", "ACCEPT"), Rule("state1", "ACCEPT"), Rule("possrc", "DROP"),
+                    Rule("negold", "DROP"), Rule("markhex", "MARK"), Rule("markmask", "MARK"), Rule("loginfo", "LOG"),
+                    Rule("ifin", "ACCEPT"), Rule("ifout", "ACCEPT")}
+I3 ==
+  \E a, b \in InjSeqs(PoolX \ {Rule("drop", "DROP")}, 1), tail \in {<<>>, <<Rule("drop", "DROP")>>} :
+    /\ dev = Cfg({}, [filter |-> [INPUT |-> Chain("DROP", a \o tail)]])
+    /\ tgt = Cfg({}, [filter |-> [INPUT |-> Chain("DROP", b \o tail)]])
+
 (* M1: merge of Netspoc rules with raw rules before / after [APPEND] (C18) *)
 M1 ==
   \E v4 \in InjSeqs({Rule("tcp80", "ACCEPT"), Rule("state", "ACCEPT"), Rule("drop", "DROP"), Rule("negsrc", "DROP")}, MaxLen),
@@ -54,7 +66,7 @@ M1 ==
     /\ tgt = [routes |-> {}, tables |-> [filter |-> [INPUT |-> Chain("DROP", v4)]],
               parts |-> [v4 |-> v4, v6 |-> <<>>, pre |-> pre, app |-> app]]
 
-Init == CASE Fam = "R1" -> R1 [] Fam = "I1" -> I1 [] Fam = "I2" -> I2 [] Fam = "M1" -> M1
+Init == CASE Fam = "I3" -> I3 [] Fam = "R1" -> R1 [] Fam = "I1" -> I1 [] Fam = "I2" -> I2 [] Fam = "M1" -> M1
 Next == UNCHANGED <<dev, tgt>>
 Out == PrintT(<<"VOUT", ToJson([fam |-> Fam, dev |-> dev, tgt |-> tgt, tie |-> FALSE])>>)
 =============================================================================
